@@ -26,7 +26,7 @@ TextExact(e) == (Has(e, "text") /\ e.ty = "level") => e.text = EncText(e.ty, e.v
 JsonOk(e) == Has(e, "json") =>
                /\ (HasJson(e.ty) => e.json = EncJson(e.ty, e.v))
                /\ e.jok /\ SameValue(e.ty, e.v, e.jback)
-               /\ (e.ty = "pkg" => e.valid)
+               /\ (e.ty \in {"pkg", "pkgseq"} => e.valid)
 ParseOk(e) == e.panic = 0 /\ e.ok + e.err = e.n
 
 BadText == {i \in C : ~(TextOk(Rec[i]) /\ TextExact(Rec[i]))}
